@@ -473,9 +473,7 @@ def replay(case):
 
 
 META = {
-    "text": "Three exhaustive explorations over a 36-program corpus built to collide (same names, two type variants per template): every single-site (thorough: single-occurrence and "
-            "two-site) deviation of set iteration order inside pyanalyze under a controlled scheduler; every check history up to depth 2/3 over 8/12 programs on a shared Checker; and a "
-            "fixed block of hash seeds in fresh uninstrumented subprocesses. All must render identical diagnostics.",
+    "text": "Three exhaustive explorations over two corpora - 138 generated programs built to collide (46 templates, same names, two type vocabularies and a swapped-union variant each) and the ~905 programs of pyanalyze's own test-suite: every single-site (thorough: single-occurrence and two-site) deviation of set iteration order inside pyanalyze under a controlled scheduler; every check history up to depth 2/3 over 22/26 generated programs on a shared Checker, plus long histories over the harvested corpus (in order, reversed, thorough: rotations); and a fixed block of hash seeds in fresh uninstrumented subprocesses. All must render identical diagnostics (full message text) and identical inferred values.",
     "note": "Trusted: the AST instrumentation (conformance-checked against the uninstrumented run on every execution). Orders chosen in C code are only covered by the seed block.",
     "technique": "stateless exploration of set-iteration schedules under a controlled scheduler + explicit-state search over check histories + fixed seed block in fresh processes",
 }
